@@ -2,9 +2,9 @@ use std::cmp;
 use std::fmt::Write;
 
 use liquid_core::model::try_find;
-use liquid_core::model::KStringCow;
 use liquid_core::model::ValueViewCmp;
 use liquid_core::parser::parse_variable;
+use liquid_core::runtime::Variable;
 use liquid_core::Expression;
 use liquid_core::Result;
 use liquid_core::Runtime;
@@ -51,10 +51,9 @@ enum NilsOrder {
 
 fn safe_property_getter<'v>(
     value: &'v Value,
-    property: &KStringCow<'_>,
+    variable: &Variable,
     runtime: &dyn Runtime,
 ) -> ValueCow<'v> {
-    let variable = parse_variable(property).expect("Failed to parse variable");
     if let Some(path) = variable.try_evaluate(runtime) {
         try_find(value, path.as_slice()).unwrap_or(ValueCow::Borrowed(&Value::Nil))
     } else {
@@ -119,20 +118,25 @@ impl Filter for SortFilter {
             NilsOrder::First
         };
 
-        let mut sorted: Vec<Value> = input.iter().map(|v| v.to_value()).collect();
-        if let Some(property) = &args.property {
+        // Values of unrelated types do not compare, so this is not a total order
+        let sorted: Vec<Value> = input.iter().map(|v| v.to_value()).collect();
+        let sorted = if let Some(property) = &args.property {
+            let property = parse_variable(property)
+                .map_err(|_| invalid_input("Property must be a variable path"))?;
             // Using unwrap is ok since all of the elements are objects
-            sorted.sort_by(|a, b| {
+            crate::stable_sort_by(sorted, &mut |a, b| {
                 nil_safe_compare(
-                    safe_property_getter(a, property, runtime).as_view(),
-                    safe_property_getter(b, property, runtime).as_view(),
+                    safe_property_getter(a, &property, runtime).as_view(),
+                    safe_property_getter(b, &property, runtime).as_view(),
                     nils,
                 )
                 .unwrap_or(cmp::Ordering::Equal)
-            });
+            })
         } else {
-            sorted.sort_by(|a, b| nil_safe_compare(a, b, nils).unwrap_or(cmp::Ordering::Equal));
-        }
+            crate::stable_sort_by(sorted, &mut |a, b| {
+                nil_safe_compare(a, b, nils).unwrap_or(cmp::Ordering::Equal)
+            })
+        };
         Ok(Value::array(sorted))
     }
 }
